@@ -83,7 +83,7 @@ func (t *Term) Atoms() map[string]bool {
 				n = n[:i]
 			}
 			m["alloc:"+n] = true
-		case "len", "not", "phi", "index", "slice", "lookup", "next", "range", "closure", "typeassert":
+		case "len", "not", "phi", "index", "slice", "lookup", "next", "range", "closure", "typeassert", "recv":
 			m[x.Op] = true
 		default:
 			if strings.HasPrefix(x.Op, "binop") {
